@@ -68,6 +68,10 @@ WithInput(st, locs, x) ==
 Unret(M) == IF M.sig = "return" THEN [M EXCEPT !.sig = ""] ELSE M
 Run(body, st) == Unret(ExecSeq(NewMachine(st, <<>>, FALSE), body, 1))
 
+RunTrk(body, st) == Unret(ExecSeq(NewMachine(st, <<>>, TRUE), body, 1))
+\* active locations a (tracked) run read or wrote
+Touched(M, act) == {l \in M.ard \cup M.wr : l[1] \in SeqSet(act)}
+
 OutVec(M, locs) == TLCEval([i \in DOMAIN locs |-> M.st[locs[i][1]].d[locs[i][2]]])
 PassiveSame(M, st, pas) == \A i \in DOMAIN pas : M.st[pas[i]].d = st[pas[i]].d
 
@@ -112,30 +116,44 @@ Judge4(c, st0, locs, N, A, B, D0) ==
          i == ij[1]  j == ij[2]
      IN [v |-> "Transpose",
          w |-> [i |-> locs[i], j |-> locs[j], adj |-> B[i].out[j], tl |-> A[j].out[i],
+                names |-> {locs[x[1]][1] : x \in bad} \cup {locs[x[2]][1] : x \in bad},
                 nbad |-> Cardinality(bad), n |-> N]]
   ELSE IF \A j \in 1..N : A[j].out = UnitVec(N, j)
   THEN [v |-> "trivial", w |-> [why |-> "identity"]]
   ELSE [v |-> "ok", w |-> [why |-> ""]]
 
-Judge3(c, st0, locs, N, A, TX) ==
+Judge3(c, st0, locs, N, A, TX, D0) ==
   IF \E j \in 1..N : ~A[j].ok THEN Skip("ub")
   ELSE IF \E j \in 1..N : ~A[j].pasok THEN Skip("tlpassive")
   ELSE IF TX.sig # "" THEN Skip("ub")
   ELSE IF OutVec(TX, locs) # TLCEval([r \in 1..N |-> Comb(A, r, N)]) THEN Skip("nonlinear")
   ELSE Judge4(c, st0, locs, N, A,
-              TLCEval([i \in 1..N |-> Column(c.ad, st0, locs, c.pas, i)]),
-              Run(c.ad, st0))
+              TLCEval([i \in 1..N |-> Column(c.ad, st0, locs, c.pas, i)]), D0)
 
-Judge2(c, st0, locs, N, T0) ==
+Judge2(c, st0, locs, N, T0, D0) ==
   IF T0.sig # "" THEN Skip("ub")
   ELSE IF ~PassiveSame(T0, st0, c.pas) THEN Skip("tlpassive")
   ELSE IF OutVec(T0, locs) # TLCEval([i \in 1..N |-> RZero]) THEN Skip("nonlinear")
   ELSE Judge3(c, st0, locs, N,
               TLCEval([j \in 1..N |-> Column(c.tl, st0, locs, c.pas, j)]),
-              Run(c.tl, WithInput(st0, locs, TLCEval([i \in 1..N |-> VR(i, 1)]))))
+              Run(c.tl, WithInput(st0, locs, TLCEval([i \in 1..N |-> VR(i, 1)]))), D0)
 
-Judge1(c, st0, locs) == Judge2(c, st0, locs, Len(locs), Run(c.tl, st0))
-Judge0(c, st0) == Judge1(c, st0, TLCEval(LocsFrom(st0, c.act, 1)))
+Judge1b(c, st0, T0, D0, locs) == Judge2(c, st0, locs, Len(locs), T0, D0)
+
+\* The columns are computed for the active locations that the tl code or the
+\* adjoint reads or writes (access tracking of FortranSem, zero active input).
+\* Neither program's control flow or addressing depends on active data (the
+\* harness checks that no active name occurs in a subscript, loop bound or
+\* condition of either program, otherwise c.full makes every location a column),
+\* so both matrices are the identity on every other location and the transpose
+\* relation holds there trivially.
+Judge1(c, st0, T0, D0) ==
+  IF T0.sig # "" THEN Skip("ub")
+  ELSE Judge1b(c, st0, T0, D0,
+               IF c.full THEN TLCEval(LocsFrom(st0, c.act, 1))
+               ELSE LET tch == Touched(T0, c.act) \cup Touched(D0, c.act) IN
+                    TLCEval(SelectSeq(LocsFrom(st0, c.act, 1), LAMBDA l : l \in tch)))
+Judge0(c, st0) == Judge1(c, st0, RunTrk(c.tl, st0), RunTrk(c.ad, st0))
 Judge(c, val) == Judge0(c, BaseStore(c, val))
 
 Init == /\ cid \in 1..Len(Cases)
